@@ -298,6 +298,27 @@ func main() {
 		o.Set("cat.transitions", "raftstore/store/region_manager.go:validRegionStateTransition", strings.Join(pairs, ","), okShape, "0-1,1-2,1-3,2-3")
 	}
 
+	{
+		// pd/server/service.go RegionHeartbeat: when SaveRegion fails the handler only reports the
+		// error; the in-memory catalog keeps what UpsertRegionHeartbeat accepted
+		sv := o.Load("pd/server/service.go")
+		rh := sv.Func("Service.RegionHeartbeat")
+		keeps, okShape := true, rh != nil
+		if rh != nil {
+			const asIs = `if err := s.storage.SaveRegion(meta); err != nil { return nil, status.Error(codes.Internal, "persist region metadata: "+err.Error()) }`
+			if !sv.HasStmt(rh.Body, asIs) {
+				keeps = false
+				if !sv.HasCall(rh.Body, "RemoveRegion") {
+					okShape = false
+				}
+			}
+			if !sv.HasStmt(rh.Body, "err := s.cluster.UpsertRegionHeartbeat(meta)") {
+				okShape = false
+			}
+		}
+		o.Set("pd.failedPersistKeepsMemory", "pd/server/service.go:RegionHeartbeat", fmt.Sprint(keeps), okShape, "true")
+	}
+
 	// ------------------------------------------------ catalog persistence (C24: reload after a restart)
 	{
 		// index of the first top-level statement of fn whose source contains sub
